@@ -113,7 +113,9 @@ gate_flags = st.one_of(
 
 # ------------------------------------------------------------------------------------------ valid transform programs (C04, C07, C13, C14)
 _token = st.text(alphabet=token_chars + "-_", min_size=1, max_size=10).map(lambda s: s.encode())
-_printable_arg = st.text(alphabet=token_chars + "-_.~", max_size=12).map(lambda s: s.encode())
+# affix text for placements that travel as header / parameter / URI text: unreserved characters plus the sub-delimiters
+# and ":" "@" that RFC 3986 allows unescaped in a path segment (";" "=" "," matter to URL / header parsers)
+_printable_arg = st.text(alphabet=token_chars + "-_.~" + ";=,:@!*$()", max_size=12).map(lambda s: s.encode())
 
 
 @st.composite
@@ -174,14 +176,15 @@ def valid_client_program(draw, kinds=("metadata",), printable=False, allow_uri_a
         if k == "_PARAMETER":
             name = draw(_token.filter(lambda t: t not in used_params))
             used_params.add(name)
-            val = draw(_printable_arg if printable else arg_bytes)
+            # values may themselves contain the separator (only the first "=" / ": " splits name from value)
+            val = draw(st.one_of(_printable_arg, st.sampled_from([b"a=b", b"=", b"k=v=w", b"=="])) if printable else st.one_of(arg_bytes, st.sampled_from([b"a=b", b"=", b"k=v=w", b"x: y"])))
             steps.append((k, name + b"=" + val))
         else:
             name = b"Host" if k == "_HOSTHEADER" else draw(_token.filter(lambda t: t.lower() not in used_headers and t.lower() != b"host"))
             if name.lower() in used_headers:
                 continue
             used_headers.add(name.lower())
-            val = draw(_printable_arg.filter(lambda v: v.strip() == v) if printable else arg_bytes)
+            val = draw(st.one_of(_printable_arg.filter(lambda v: v.strip() == v), st.sampled_from([b"a: b", b"x: y: z", b"k=v"])) if printable else st.one_of(arg_bytes, st.sampled_from([b"a: b", b": ", b"x: y: z", b"k=v"])))
             steps.append((k, name + b": " + val))
     return steps
 
@@ -225,7 +228,7 @@ def http_beacon_config(draw, printable=True):
     tries = 0
     while len(uris) < n_uris + 1 and tries < 50:
         tries += 1
-        u = "/" + draw(seg) + draw(st.sampled_from(["", "", ".php", ".js", "/x"]))
+        u = "/" + draw(seg) + draw(st.sampled_from(["", "", ".php", ".js", "/x", "", ".php", ";jsessionid=", ";v=1", "/a;b/c", "@x", ":8", "!", "$x", "*", "(1)", "=", "/x=1;y=2"]))
         if all(not u.startswith(o) and not o.startswith(u) for o in uris):
             uris.append(u)
     if len(uris) < 2:
